@@ -355,6 +355,12 @@ def gen_around(rng, info, doc, f, t):
                 wn = Node(w, gen_attrs(rng, w), Fragment.empty, n.marks if rng.random() < 0.5 else [])
                 return ReplaceAroundStep(p, p + n.node_size, p + 1, p + n.node_size - 1,
                                          Slice(Fragment.from_(wn), 0, 0), 1, True)
+    if r < 0.94:
+        # an empty gap at the very end of the range with part of the slice after it (a wrapper around nothing)
+        types = [t_ for t_ in schema.nodes.values() if not t_.is_leaf and not t_.is_text]
+        w = rng.choice(types)
+        wn = Node(w, gen_attrs(rng, w), Fragment.empty, [])
+        return ReplaceAroundStep(f, t, t, t, Slice(Fragment.from_(wn), 0, 0), 1, rng.random() < 0.5)
     # arbitrary gap inside [f, t]
     gf = rng.randint(f, t)
     gt = rng.randint(gf, t)
